@@ -15,14 +15,17 @@ Inductive wframe := FMsg (kind : string) (n : Z) | FClose.
 
 Inductive wop :=
 | WWrite (kind : string) (n : Z) (locked : bool)    (* c.write(msg): Lock; me.Send; Unlock *)
-| WClose (checked_under_lock : bool).               (* c.close(code, reason) *)
+| WClose (checked_under_lock : bool)                (* c.close(code, reason) *)
+| WLook (unlocks : bool).                           (* Lock; look something up in c.active (stop, the pong flag); Unlock - [unlocks = false]
+                                                       is the slip: a path that returns without unlocking *)
 
 Inductive wpc :=
 | WIdle
 | WHeld        (* holds the mutex, about to act *)
 | WWriting     (* holds the mutex, inside conn.WriteMessage *)
 | WWrote       (* holds the mutex, about to unlock *)
-| WUWriting.   (* inside conn.WriteMessage WITHOUT the mutex (slip) *)
+| WUWriting    (* inside conn.WriteMessage WITHOUT the mutex (slip) *)
+| WLeaked.     (* (slip) returned from a call that left the mutex locked *)
 
 Record wthread := {
   t_pc : wpc;
@@ -37,7 +40,7 @@ Record wsstate := {
   ws_out : list (nat * wframe);   (* the frames on the wire, each with its writer *)
   ws_cb : nat }.                  (* calls of CloseFunc *)
 
-Definition holding (t : wthread) : bool := match t_pc t with WHeld | WWriting | WWrote => true | _ => false end.
+Definition holding (t : wthread) : bool := match t_pc t with WHeld | WWriting | WWrote | WLeaked => true | _ => false end.
 Definition writing (t : wthread) : bool := match t_pc t with WWriting | WUWriting => true | _ => false end.
 
 Definition start_thread (p : list wop) : wthread := {| t_pc := WIdle; t_prog := p; t_forced := false; t_done := []; t_prog0 := p |}.
@@ -59,7 +62,7 @@ Definition put_emit (s : wsstate) (i : nat) (t : wthread) (f : wframe) (closes :
   {| ws_thr := upd i t (ws_thr s); ws_closed := ws_closed s || closes; ws_out := ws_out s ++ [(i, f)];
      ws_cb := if closes then S (ws_cb s) else ws_cb s |}.
 
-Definition frame_of (o : wop) : wframe := match o with WWrite k n _ => FMsg k n | WClose _ => FClose end.
+Definition frame_of (o : wop) : wframe := match o with WWrite k n _ => FMsg k n | WClose _ | WLook _ => FClose end.
 Definition is_close_op (o : wop) : bool := match o with WClose _ => true | _ => false end.
 
 (** one step of goroutine [i] *)
@@ -72,6 +75,7 @@ Definition wsstep (s : wsstate) (i : nat) : option wsstate :=
       | WWrote => Some (put s i (with_pc t WIdle))                                   (* Unlock *)
       | WWriting =>
           match t_prog t with
+          | WLook _ :: rest => Some (put s i (with_prog t WWrote rest))              (* (not reachable: a look-up goes from WHeld to WWrote) *)
           | o :: rest => Some (put_emit s i (emitted t WWrote rest (frame_of o)) (frame_of o) (is_close_op o))
           | [] => None
           end
@@ -87,14 +91,17 @@ Definition wsstep (s : wsstate) (i : nat) : option wsstate :=
               if ws_closed s && (chk || negb (t_forced t))
               then Some (put s i (with_prog t WWrote rest))                          (* already closed: unlock, return *)
               else Some (put s i (with_pc t WWriting))
+          | WLook unlocks :: rest => Some (put s i (with_prog t (if unlocks then WWrote else WLeaked) rest))
           | [] => None
           end
+      | WLeaked => None                                                              (* whatever it does next needs the mutex it holds *)
       | WIdle =>
           match t_prog t with
           | [] => None
           | WWrite _ _ true :: _ => if free then Some (put s i (with_pc t WHeld)) else None     (* Lock *)
           | WWrite _ _ false :: _ => Some (put s i (with_pc t WUWriting))
           | WClose true :: _ => if free then Some (put s i (with_pc t WHeld)) else None
+          | WLook _ :: _ => if free then Some (put s i (with_pc t WHeld)) else None
           | WClose false :: rest =>
               if t_forced t then (if free then Some (put s i (with_pc t WHeld)) else None)
               else if ws_closed s then Some (put s i (with_prog t WIdle rest))
@@ -107,7 +114,7 @@ Fixpoint wsrun (s : wsstate) (tr : list nat) {struct tr} : option wsstate :=
   match tr with [] => Some s | i :: r => match wsstep s i with Some s' => wsrun s' r | None => None end end.
 
 (** the discipline as written: every frame through [c.write], [closed] read under the lock *)
-Definition op_as_written (o : wop) : bool := match o with WWrite _ _ l => l | WClose c => c end.
+Definition op_as_written (o : wop) : bool := match o with WWrite _ _ l => l | WClose c => c | WLook u => u end.
 Definition progs_as_written (progs : list (list wop)) : bool := forallb (forallb op_as_written) progs.
 
 (** observables *)
@@ -116,5 +123,5 @@ Definition is_fclose (f : wframe) : bool := match f with FClose => true | _ => f
 Definition close_frames (s : wsstate) : nat := count (fun x => is_fclose (snd x)) (ws_out s).
 Definition proj (i : nat) (out : list (nat * wframe)) : list wframe := map snd (filter (fun x => Nat.eqb (fst x) i) out).
 Definition msgs (l : list wframe) : list (string * Z) := flat_map (fun f => match f with FMsg k n => [(k, n)] | FClose => [] end) l.
-Definition wmsgs (p : list wop) : list (string * Z) := flat_map (fun o => match o with WWrite k n _ => [(k, n)] | WClose _ => [] end) p.
+Definition wmsgs (p : list wop) : list (string * Z) := flat_map (fun o => match o with WWrite k n _ => [(k, n)] | WClose _ | WLook _ => [] end) p.
 Definition unfinished (t : wthread) : bool := match t_pc t, t_prog t with WIdle, [] => false | _, _ => true end.
